@@ -929,6 +929,17 @@ pub fn gen_c08(r: &mut Rng, id: usize, thorough: bool) -> Group {
 pub fn gen_c09(r: &mut Rng, id: usize) -> Group {
     let p = PipeOpts { force_group: true, ..Default::default() };
     let mut g = gen_pipeline(r, id, "C09", &p, &key_universe_small(), 40);
+    if r.chance(4) {
+        // option values at the edge of u64 in front of the collector: whatever a stage sizes from --take / --skip, the one
+        // collection still comes out (of all rows for a huge --take, of no rows for a huge --skip)
+        let edge = [u64::MAX, u64::MAX - 1, 1u64 << 63, 1u64 << 40, 1_000_000_000_000u64];
+        if r.chance(60) {
+            g.cases[0].spec.take = Some(edge[r.below(edge.len())]);
+        } else {
+            g.cases[0].spec.skip = edge[r.below(edge.len())];
+        }
+        g.labels.push("kind:edge-u64".into());
+    }
     let mut twin = g.cases[0].clone();
     twin.id = format!("{}-ungrouped", twin.id);
     twin.spec.group = None;
@@ -1370,7 +1381,11 @@ pub fn gen_c12(r: &mut Rng, id: usize) -> Group {
     let val_lits: &[&str] = &["1", "\"v\"", "[1, 2]", "{\"q\": 1}", "null"];
     let x = r.pick(val_lits).to_string();
     let uses_var = r.chance(60);
-    let (bound, plain) = match r.below(5) {
+    let (bound, plain) = match r.below(7) {
+        // a macro defined while :x has one value and USED where :x has been bound again: the body reads the binding current where
+        // it is used (macro bodies are late bound: finding F21) — in particular it is not frozen at the definition
+        5 => (format!("(map .arr (set \"x\" 1 (define \"m\" (push [] :x {body}) (set \"x\" {x} @m))))"), format!("(map .arr (push [] {x} {body}))")),
+        6 => (format!("(set \"x\" 0 (define \"m\" :x (map .arr (set \"x\" . (push [] @m {body})))))"), format!("(map .arr (push [] . {body}))")),
         0 => {
             // (set "x" v e) with e not mentioning :x  ==  e
             (format!("(map .arr (set \"x\" {x} {body}))"), format!("(map .arr {body})"))
@@ -1845,7 +1860,10 @@ pub fn gen_c14(r: &mut Rng, id: usize) -> Group {
         } else {
             c.spec.filter = Some("(< .id 100)".into());
         }
-        let extra = r.below(3) as u64;
+        // (now and then the file that satisfies --take is LARGE: then only its beginning is read — a bounded number of bytes past
+        //  the value that gave the last row —, which the bytes this process reads while `go` runs show)
+        let big = r.chance(35);
+        let extra = if big { r.range(12_000, 30_000) as u64 } else { r.below(3) as u64 };
         let f0: String = (0..t + extra).map(|i| format!("{{\"id\":{i}}}\n")).collect();
         let tail_rows: String = (0..r.range(1, 5)).map(|i| if drop_by_unique { format!("{{\"id\":{}}}\n", i as u64 % t) } else { format!("{{\"id\":{}}}\n", 100 + i) }).collect();
         let f1 = format!("{} {}{}", r.ps(&["x", "} ]", "@@ #", ", :"]), tail_rows, r.ps(&["", "?", "]"]));
@@ -1859,6 +1877,9 @@ pub fn gen_c14(r: &mut Rng, id: usize) -> Group {
             c.sources.push(Source { name: Some("in2.json".into()), bytes: b"oops {\"id\":0}".to_vec() });
         }
         let mut g = Group::new(vec![c]);
+        if big {
+            g.labels.push("kind:large-file".into());
+        }
         g.tag = "files-after-take".into();
         g.nontrivial = true;
         g.labels.push("kind:files-after-take".into());
@@ -2395,7 +2416,8 @@ pub fn gen_c19(r: &mut Rng, id: usize) -> Group {
         let rows: Vec<V> = (0..n)
             .map(|i| V::Obj(vec![("id".into(), V::Int(i as i128)), ("k".into(), V::Int(*r.pick(&ints))), ("l".into(), V::Arr((0..r.range(1, 3)).map(|_| V::Int(*r.pick(&ints))).collect()))]))
             .collect();
-        let (bytes, _) = stream_of(r, &rows, false);
+        // (in every spelling that denotes exactly the integer: plain, and — where a double holds it exactly — with a fraction or an exponent)
+        let (bytes, _) = stream_of(r, &rows, true);
         let mut c = case(format!("C19-{id}-text"));
         c.spec.style = Some(r.ps(&["text", "csv"]).to_string());
         c.spec.selects = vec![".k=k".into(), ".id=id".into(), "(first .l)=f".into(), "(last .l)=z".into()];
@@ -2448,7 +2470,7 @@ pub fn gen_c19(r: &mut Rng, id: usize) -> Group {
             1 => V::Obj(vec![("k".into(), V::Int(*i))]),
             _ => V::Arr(vec![V::Int(*i), V::Str("x".into())]),
         }).collect();
-        let (bytes, _) = stream_of(r, &rows, false);
+        let (bytes, _) = stream_of(r, &rows, true);
         let mut c = case(format!("C19-{id}-ints-unique"));
         c.spec.unique = true;
         match (wrap, r.below(3)) {
@@ -3077,6 +3099,12 @@ pub fn oracle(prop: &str, g: &Group, obs: &[Obs]) -> Option<String> {
                 return Some(format!("{}: --take {t} was satisfied inside the first non-empty file, yet a later file was read: its malformed bytes were reported ({})",
                                     c.id, crate::runner::show_bytes(&o.err).chars().take(160).collect::<String>()));
             }
+            // a bounded number of bytes past the value that produced the T-th row: the rows wanted end within the first hundred
+            // bytes of the file; a buffered reader may take a few blocks, not the file
+            let sizes: usize = c.sources.iter().map(|s| s.bytes.len()).sum();
+            if sizes > 150_000 && o.file_read > 65_536 {
+                return Some(format!("{}: --take {t} is satisfied within the first bytes of a {sizes}-byte input file, yet {} bytes were read from the input files", c.id, o.file_read));
+            }
             None
         }
         "C14" => {
@@ -3114,6 +3142,12 @@ pub fn oracle(prop: &str, g: &Group, obs: &[Obs]) -> Option<String> {
             let streaming = g.cases[0].spec.sorts.is_empty() && g.cases[0].spec.group.is_none();
             if streaming && base.res == "ok" && !base.out.starts_with(&rf.out) && g.cases[0].spec.on_error.as_deref() != Some("stdout") {
                 return Some("output before the read failure is not a prefix of the fault-free output".into());
+            }
+            // a stage that needs the whole input (sort, group, merge) prints only at the end of the input: when the input FAILS there
+            // is no end, so nothing computed from the part that was read may be printed as if it were the result
+            if !streaming && rf.res == "err:io" && g.cases[0].spec.on_error.as_deref() != Some("stdout") && g.cases[0].spec.style.is_none() && !rf.out.is_empty() {
+                return Some(format!("read failure at byte {off} of {total} in a pipeline that sorts or groups the whole input, yet {} bytes were written to standard output: a result computed from the truncated input",
+                                    rf.out.len()));
             }
             if base.res == "ok" {
                 let k = g.cases[2].wfail.unwrap_or(0);
@@ -3190,6 +3224,15 @@ pub fn oracle(prop: &str, g: &Group, obs: &[Obs]) -> Option<String> {
                     };
                     if !(so <= *a && *b <= eo && eo <= *b + 1) {
                         return Some(format!("row {k}: the range {sl}:{sc}..{el}:{ec} = bytes {so}..{eo} does not delimit the value's text at bytes {a}..{b}"));
+                    }
+                    if ooa {
+                        // values the option drops lie between the rows: the range of a row starts after the text of the value in
+                        // front of it, dropped or not (it never swallows another value)
+                        if let Some(j) = spans.iter().position(|s| s == &(*a, *b)) {
+                            if j > 0 && so < spans[j - 1].1 {
+                                return Some(format!("row {k}: the range {sl}:{sc}..{el}:{ec} = bytes {so}..{eo} starts inside or before the previous value (bytes {}..{}), which --only-objects-and-arrays dropped", spans[j - 1].0, spans[j - 1].1));
+                            }
+                        }
                     }
                     if !ooa {
                         if let Some(pe) = prev_end {
